@@ -21,7 +21,8 @@ RULE = ('each case = one endpoint (role x inbound configuration) fed up to 60 pe
         'between (requests, 1xx / final responses, pushes, resets), byte mutation, random chunking; non-trivial = at least 5 '
         'stream events checked by the automaton; distinct = hash of delivered bytes + local calls')
 MINIMA = {'events_checked': 100000, 'stream_events_checked': 50000, 'related_links_checked': 10000, 'streams_tracked': 20000,
-          'completed_pushes_generated': 2000, 'stream_id_reuse_productions': 1000}
+          'completed_pushes_generated': 2000, 'stream_id_reuse_productions': 1000,
+          'frames_on_ids_of_failed_openings': 300}
 
 HEADER_EVENTS = ('RequestReceived', 'ResponseReceived', 'InformationalResponseReceived', 'TrailersReceived')
 
@@ -149,12 +150,24 @@ def run_case(idx, rng, tier, rep):
     dead = 0
     nstream_events = 0
     reset_local, done_pushed, skipped = set(), [], []
+    garbage_ids = []
     for i in range(rng.choice([10, 30, 60])):
         if dead > 1:
             break
         # local calls that change what the peer may legally send
         r = rng.random()
-        if e_client and r < 0.3:
+        if e_client and r < 0.03:
+            # a mistaken call: a header value that is not a string.  Whatever it raises, nothing was sent and the id is unused;
+            # the peer later sends frames on that very id
+            res = t.call('send_headers', nsid, gen.valid_headers(rng, 'request') + [(b'content-length', 0)])
+            local.append(('garbage-req', nsid))
+            if res.exc is not None:
+                garbage_ids.append(nsid)
+                rep.count('garbage_openings')
+            elif res.ok:
+                pg.note_e_stream(nsid)
+            nsid += 2
+        elif e_client and r < 0.3:
             res = t.call('send_headers', nsid, gen.valid_headers(rng, 'request'), end_stream=rng.random() < 0.5)
             local.append(('req', nsid))
             if res.ok:
@@ -181,6 +194,11 @@ def run_case(idx, rng, tier, rep):
             if rr.exc is None and e_client:
                 reset_local.add(sid)
         msg = illegal_production(rng, pg, e_client) if rng.random() < 0.12 else pg.step()
+        if e_client and garbage_ids and rng.random() < 0.3:
+            gid = rng.choice(garbage_ids)
+            msg = rng.choice([wire.build_headers(gid, hb(RESP)), wire.build_headers(gid, hb(REQ), end_stream=True),
+                              wire.build_data(gid, b'late')])
+            rep.count('frames_on_ids_of_failed_openings')
         if e_client and pg.e_streams:
             r2 = rng.random()
             live_par = [x for x in pg.e_streams if x not in reset_local]
